@@ -3745,7 +3745,18 @@ class BaseParser:
         """Appends an empty string in subprocess mode to the argument list."""
         p3 = p[3]
         node = ast.const_str(s="", lineno=p3.lineno, col_offset=p3.lexpos + 1)
-        p[2][-1].elts.append(node)
+        self._subproc_bang_target(p).elts.append(node)
+
+    def _subproc_bang_target(self, p):
+        """The argument list a subprocess macro ``!`` appends to; the ``!`` must
+        follow a command's words, not ``&`` or a closed group."""
+        target = p[2][-1]
+        if not isinstance(target, ast.List):
+            p3 = p[3]
+            self._set_error(
+                "code: !", self.currloc(lineno=p3.lineno, column=p3.lexpos)
+            )
+        return target
 
     def _append_subproc_bang(self, p):
         """Appends the part between ! and the ) or ] in subprocess mode to the
@@ -3756,7 +3767,7 @@ class BaseParser:
         end = (p5.lineno, p5.lexpos)
         s = self._source_slice(beg, end).strip()
         node = ast.const_str(s=s, lineno=beg[0], col_offset=beg[1])
-        p[2][-1].elts.append(node)
+        self._subproc_bang_target(p).elts.append(node)
 
     def p_subproc_atom_uncaptured(self, p):
         """subproc_atom : dollar_lbracket_tok subproc RBRACKET"""
